@@ -7,7 +7,7 @@ From LC Require Import AstDefs GenDefs GramDefs GramSpec GramProofs ReadDefs CGr
   EvalDefs EvalProofs ReadProofs LexProofs GenProofs GenWitness.
 From Coq Require Import QArith.
 Local Close Scope Q_scope.
-From LC Require Import ScaleDefs ScaleProofs AnalysisDefs AnalysisSpec ExternalDefs OrderDefs OrderProofs.
+From LC Require Import ScaleDefs ScaleProofs AnalysisDefs AnalysisSpec ExternalDefs OrderDefs OrderProofs EndToEndProofs.
 Local Open Scope string_scope.
 
 (** * The text printed for an AST of the safe class is read as the equation says.
@@ -141,6 +141,39 @@ Example C03_scale_nonvacuous :
                     (bin ROOT (un DEGREE (Node TIMES "" (cn "0.01") (ci "p"))) (ci "x")))).
 Proof. exact ScaleProofs.scale_nonvacuous. Qed.
 Print Assumptions C03_scale_nonvacuous.
+
+(** * End to end, for the field fragment (variables, numbers, + - * /, unary minus and plus; [field_frag]): the
+    equation side as written, unit-scaled by the analyser, printed by the generator and read by the C compiler /
+    Python, has over the STORED values (Et on trees, Es on ASTs: the same variables and numbers) the value the written
+    side has over the LOCAL values (every variable in its own units), for every interpretation.  The only hypothesis
+    on the input beyond the fragment is that the scaled AST is in the proved-safe class of the printer. *)
+Theorem C03_end_to_end_C : forall (S : senv) (Es : aenv) (Et : env),
+  (forall v, (0 < sf S v)%Q) ->
+  (forall v, a_lit Es (sf_text S v) = Qcanon.Q2Qc (sf S v)) ->
+  (forall v, a_lit Es (sf_inv_text S v) = Qcanon.Qcinv (Qcanon.Q2Qc (sf S v))) ->
+  (forall v, e_var Et v = a_var Es v) ->
+  (forall s, eval Et (lit_tree s) = a_lit Es s) ->
+  forall a, field_frag a = true -> safeC (scale_expr S a) = true ->
+  exists T, readC (gen_C (scale_expr S a)) = Some T /\ eval Et T = aeval (local_env S Es) a.
+Proof. exact EndToEndProofs.end_to_end_C. Qed.
+Print Assumptions C03_end_to_end_C.
+
+Theorem C03_end_to_end_Py : forall (S : senv) (Es : aenv) (Et : env),
+  (forall v, (0 < sf S v)%Q) ->
+  (forall v, a_lit Es (sf_text S v) = Qcanon.Q2Qc (sf S v)) ->
+  (forall v, a_lit Es (sf_inv_text S v) = Qcanon.Qcinv (Qcanon.Q2Qc (sf S v))) ->
+  (forall v, e_var Et v = a_var Es v) ->
+  (forall s, eval Et (lit_tree s) = a_lit Es s) ->
+  forall a, field_frag a = true -> safePy (scale_expr S a) = true ->
+  exists T, readPy (gen_Py (scale_expr S a)) = Some T /\ eval Et T = aeval (local_env S Es) a.
+Proof. exact EndToEndProofs.end_to_end_Py. Qed.
+Print Assumptions C03_end_to_end_Py.
+
+Example C03_end_to_end_nonvacuous :
+  field_frag e2e_a = true /\ safeC (scale_expr env3 e2e_a) = true /\ safePy (scale_expr env3 e2e_a) = true
+  /\ gen_C (scale_expr env3 e2e_a) = "0.01*p+q*-(2.0-0.01*p)".
+Proof. exact EndToEndProofs.end_to_end_nonvacuous. Qed.
+Print Assumptions C03_end_to_end_nonvacuous.
 
 (** * Emission order (generator.cpp generateEquationCode and the four method bodies: the transcription is C20's
     ExternalDefs, reused; tied exactly to the sequence of array entries assigned by each generated method of every
